@@ -52,10 +52,11 @@ var Checks = []CheckDef{
 	},
 	{
 		ID: "C05", Title: "Close and reload preserve every record exactly",
-		Claim:   "bounded symbolic execution of the real treasure setters/getters, ConvertToByte and LoadFromByte (the exact pair the chronicler uses to store and reload a record) for every one of the 14 content types with a fully symbolic value (strings/byte arrays/uint32 sets up to 2 elements; zero-like values included) and symbolic created/updated/expiry/created-by metadata: after encode + decode into a fresh record the key, metadata, existence of content, content type and value are identical",
+		Claim:   "bounded symbolic execution of the real treasure setters/getters, ConvertToByte and LoadFromByte (the exact pair the chronicler uses to store and reload a record) for every one of the 14 content types with a fully symbolic value (strings/byte arrays/uint32 sets up to 2 elements; zero-like values included) and symbolic created/updated/expiry/created-by metadata: after encode + decode into a fresh record the key, metadata, existence of content, content type and value are identical; plus histories on a PERSISTENT swamp (real swamp, real chronicler V2 and file format on the file-system model, immediate-write and interval mode): sessions of up to maxOps operations (set value+expiry, set the identical value with a new expiry, delete) on two keys with symbolic values, each followed by Close and a re-summon from the file: same existence, value, created and expiry metadata for every key",
 		Trusted: "encoding/gob is a contract model written from its documentation (zero-valued fields are not transmitted, also behind non-nil pointers; decoding leaves absent fields untouched); the model is validated against the real gob on every run by native replay of sampled paths and of every counter-example",
 		Harnesses: []HarnessDef{
 			{Pkg: "app/core/hydra/swamp/treasure", Func: "VerifC05Reload", Quick: map[string]int{}, Thorough: map[string]int{}, Covers: []string{"end"}},
+			{Pkg: "app/core/hydra/swamp", Func: "VerifC05History", Quick: map[string]int{"sessions": 2, "maxOps": 1}, Thorough: map[string]int{"sessions": 2, "maxOps": 2}, Covers: []string{"end", "reloaded"}},
 		},
 		Assumptions: []string{"float values are not NaN (NaN != NaN would make the equality oracle vacuous)", "strings / byte arrays / uint32 sets up to 2 elements"},
 		Stubs:       []string{"encoding/gob Encoder/Decoder = contract model (opaque 8-byte token)"},
